@@ -762,11 +762,19 @@ func (r *Runtime) Run(ctx context.Context) (err error) {
 		err = t.Wait()
 	}()
 
-	// Register cleanup function that will run after tomb is killed
-	r.registerCleanup(t)
+	// Register cleanup function that will run after tomb is killed. The
+	// cleanup has to wait for initServices to return: a tomb that dies while
+	// the services are still starting (a signal during start-up) would
+	// otherwise stop "all" pipelines and close the DB before the start-up got
+	// to start them, leaving them running on a closed store.
+	initDone := make(chan struct{})
+	r.registerCleanup(t, initDone)
 
 	// Initialize all services
-	err = r.initServices(ctx, t)
+	err = func() error {
+		defer close(initDone)
+		return r.initServices(ctx, t)
+	}()
 	if err != nil {
 		return cerrors.Errorf("failed to initialize services: %w", err)
 	}
@@ -867,18 +875,19 @@ func (r *Runtime) initProfiling(ctx context.Context) (deferred func(), err error
 	return
 }
 
-func (r *Runtime) registerCleanup(t *tomb.Tomb) {
+func (r *Runtime) registerCleanup(t *tomb.Tomb, initDone <-chan struct{}) {
 	if r.Config.Preview.PipelineArchV2 {
-		r.registerCleanupV2(t)
+		r.registerCleanupV2(t, initDone)
 	} else {
-		r.registerCleanupV1(t)
+		r.registerCleanupV1(t, initDone)
 	}
 }
 
-func (r *Runtime) registerCleanupV1(t *tomb.Tomb) {
+func (r *Runtime) registerCleanupV1(t *tomb.Tomb, initDone <-chan struct{}) {
 	ls := r.lifecycleService.(*lifecycle.Service)
 	t.Go(func() error {
 		<-t.Dying()
+		<-initDone // pipelines may still be getting started
 		// start cleanup with a fresh context
 		ctx := context.Background()
 
@@ -887,8 +896,15 @@ func (r *Runtime) registerCleanupV1(t *tomb.Tomb) {
 		if t.Err() == nil || cerrors.Is(t.Err(), context.Canceled) {
 			ls.StopAll(ctx, pipeline.ErrGracefulShutdown)
 		} else {
-			// tomb died due to a real error
-			ls.StopAll(ctx, cerrors.Errorf("conduit experienced an error: %w", t.Err()))
+			// tomb died due to a real error. The pipelines themselves are
+			// healthy, Conduit is what is going away: this is still a system
+			// stop (the reason has to be ErrGracefulShutdown). Any other
+			// reason makes the source nodes fail with it, and a pipeline that
+			// failed with a non-fatal error is restarted by the error recovery
+			// in the middle of the shutdown, after Wait below already joined
+			// the old run (a fatal one would leave every pipeline degraded,
+			// i.e. not resumed on the next start).
+			ls.StopAll(ctx, cerrors.Errorf("conduit experienced an error (%v): %w", t.Err(), pipeline.ErrGracefulShutdown))
 		}
 		err := ls.Wait(exitTimeout)
 		t.Go(func() error {
@@ -899,10 +915,11 @@ func (r *Runtime) registerCleanupV1(t *tomb.Tomb) {
 	})
 }
 
-func (r *Runtime) registerCleanupV2(t *tomb.Tomb) {
+func (r *Runtime) registerCleanupV2(t *tomb.Tomb, initDone <-chan struct{}) {
 	ls := r.lifecycleService.(*lifecycle_v2.Service)
 	t.Go(func() error {
 		<-t.Dying()
+		<-initDone // pipelines may still be getting started
 		// start cleanup with a fresh context
 		ctx := context.Background()
 
